@@ -76,9 +76,29 @@ dawgie.context.fsm = fsm
 STAT = {'success': 3, 'failure': 1, 'invalid': 6}
 
 
+_REAL_APPEND = dawgie.pl.logger.chronicle.append
+JOURNAL = [True]    # drive_schedchron.py keeps its own journal and switches this off
+_JDIR = [None]
+
+
 def _chron(entry):
     W['outs'].append(['C', entry['task'], entry['target'], entry['runid'],
                       STAT[entry['status']]])
+    if JOURNAL[0]:
+        # the real journal, in a scratch directory: an entry it refuses raises
+        # into schedule.complete / Hand._res exactly as in the pipeline
+        if _JDIR[0] is None:
+            import atexit
+            import shutil
+            import tempfile
+            _JDIR[0] = tempfile.mkdtemp(prefix='dsched-chron-')
+            atexit.register(shutil.rmtree, _JDIR[0], True)
+        keep = dawgie.context.data_dbs
+        dawgie.context.data_dbs = _JDIR[0]
+        try:
+            _REAL_APPEND(entry)
+        finally:
+            dawgie.context.data_dbs = keep
 
 
 dawgie.pl.logger.chronicle.append = _chron
@@ -257,8 +277,13 @@ def run_case(case):
                 _, w, x, t, rid, oc, vals = ev
                 suc = {3: True, 1: False, 6: None}[oc]
                 v = [('.'.join([str(rid), tname(vt), vnames[vn]]), bool(isn)) for vt, vn, isn in vals] if oc == 3 else None
+                # worker.Context.run stamps `started` only once the task object
+                # exists: a unit that fails before that (module not importable on
+                # that worker, constructor raising) answers with the timing it
+                # was sent (`scheduled` only).  Chosen from the event itself.
+                early = oc != 3 and (x + t + (rid or 0)) % 3 == 0
                 m = M.make(typ=M.Type.response, inc=(None if t == 0 else tname(t)), jid=tags[x], rid=rid,
-                           suc=suc, tim={'started': 'x'}, val=v)
+                           suc=suc, tim=({'scheduled': 'x'} if early else {'started': 'x'}), val=v)
                 if w in holding and (x, t, rid) in holding[w]:
                     holding[w].remove((x, t, rid))
                 hands[w].dataReceived(frame(m))
